@@ -130,6 +130,56 @@ pub fn check(_ctx: &Ctx, st: &mut Stats, c: &Case) {
     }
 }
 
+fn conv(date: chrono::NaiveDate) -> Option<(u32, bool, u32, u32)> {
+    guarded(|| {
+        let h = HijriDate::from(date);
+        (h.year(), h.pre_epoch(), h.month() as u32, h.day() as u32)
+    })
+    .ok()
+}
+
+fn history_passes(ctx: &Ctx, st: &mut Stats, a: i32, b: i32) {
+    let lo = ce(ymd(1, 1, 1));
+    let hi = ce(ymd(9999, 12, 31));
+    let judge = |st: &mut Stats, day: i32, pass: &str| {
+        let date = from_ce(day);
+        st.evaluations += 1;
+        let (wy, wbh, wm, wd) = o::tabular(date);
+        match conv(date) {
+            Some(got) => {
+                if got != (wy, wbh, wm, wd) {
+                    st.violate("differs_from_tabular_calendar", &Case { start: d2s(date), len: 1 }, json!({"pass": pass, "got": format!("{got:?}"), "want": format!("{:?}", (wy, wbh, wm, wd)), "note": "order-dependent: the ascending sweep of the same date may be clean"}));
+                }
+            }
+            None => st.violate("accessor_panic", &Case { start: d2s(date), len: 1 }, json!({"pass": pass})),
+        }
+    };
+    let mut day = b - 1;
+    while day >= a {
+        judge(st, day, "descending");
+        day -= 1;
+        if day % 4096 == 0 {
+            st.tick();
+        }
+    }
+    st.add("history.descending_pass_dates", (b - a) as u64);
+    let mut r = Rng::new(ctx.seed, 1701, ctx.shard);
+    let n = ctx.quota(800_000, 16_000_000);
+    for k in 0..n {
+        let d0 = r.int(a as i64, b as i64 - 1) as i32;
+        for off in [0, -1, 1, 354, -355, 29, -30] {
+            let d = d0 + off;
+            if d >= lo && d <= hi {
+                judge(st, d, "shuffled_with_neighbour_probes");
+            }
+        }
+        if k % 1024 == 0 {
+            st.tick();
+        }
+    }
+    st.add("history.shuffled_probe_groups", n);
+}
+
 pub fn run(ctx: &Ctx, st: &mut Stats) {
     let lo = ce(ymd(1, 1, 1));
     let hi = ce(ymd(9999, 12, 31));
@@ -145,6 +195,9 @@ pub fn run(ctx: &Ctx, st: &mut Stats) {
     };
     check(ctx, st, &c);
     st.nontrivial_by_construction(b - a);
+    // history diversity: the same dates again in DESCENDING order and in a seeded shuffled order with
+    // neighbour probes (d, d-1, d+1, d+354, d-355) — a conversion must not depend on the calls made before it
+    history_passes(ctx, st, a2 as i32, b as i32);
     st.sample(|| json!({"range_checked_by_this_shard": c}));
     st.extra.insert("exhaustive".into(), json!(true));
     st.extra.insert("rule".into(), json!("every Gregorian date 0001-01-01..9999-12-31 (3,652,059 dates, partitioned over shards, distinct by construction): year/month/day/B.H. against the closed-form tabular calendar in integer arithmetic, weekday against chrono, accessors and Display under catch_unwind, successor relation / month lengths on the library's own output stream"));
